@@ -57,6 +57,10 @@ type dNodeX struct {
 	DoNotDisrupt       string `json:"doNotDisrupt,omitempty"`       // node annotation value
 	Nominated          bool   `json:"nominated,omitempty"`          // nominated for a pending pod at t0
 	BufferPods         int    `json:"bufferPods,omitempty"`         // capacity-buffer placements recorded by the provisioner
+	// ReadyStatus: how a NotReady node reports it: "" (Ready=False) | "Unknown" | "Missing" (no Ready condition)
+	ReadyStatus string `json:"readyStatus,omitempty"`
+	// ClaimTGP: the NodeClaim's own terminationGracePeriod differs from the pool template: "" (same) | "none" | "30s"
+	ClaimTGP string `json:"claimTGP,omitempty"`
 }
 
 type dPodX struct {
@@ -316,6 +320,12 @@ func drawDisrupt(t *rapid.T, k dKnobs) *dScenario {
 			x.DoNotDisrupt = rapid.SampledFrom([]string{"true", "true", "false", "5m"}).Draw(t, l+"_dndV")
 		}
 		x.Nominated = dpct(t, k.BlockerPct, l+"_nominated")
+		if n.NotReady {
+			x.ReadyStatus = rapid.SampledFrom([]string{"", "Unknown", "Missing"}).Draw(t, l+"_readyStatus")
+		}
+		if dpct(t, 12, l+"_claimTGP") {
+			x.ClaimTGP = rapid.SampledFrom([]string{"none", "30s"}).Draw(t, l+"_claimTGPV")
+		}
 		if dpct(t, k.BlockerPct/2, l+"_buffer") {
 			x.BufferPods = rapid.IntRange(1, 2).Draw(t, l+"_bufferN")
 		}
@@ -429,10 +439,31 @@ func drawMut(t *rapid.T, l string, w *gen.SchedWorld) dMut {
 	if m.Kind == "podAnnotate" {
 		m.Arg = rapid.SampledFrom([]string{"true", "true", "30m", "bogus"}).Draw(t, l+"_mutArg")
 	}
+	if m.Kind == "nodeNotReady" {
+		m.Arg = rapid.SampledFrom([]string{"", "Unknown", "Missing"}).Draw(t, l+"_mutArg")
+	}
 	return m
 }
 
 func lo_ptr[T any](v T) *T { return &v }
+
+// setNotReady makes the node not ready the way the kubelet / node lifecycle controller report it.
+func setNotReady(n *corev1.Node, how string, now time.Time) {
+	var kept []corev1.NodeCondition
+	for _, c := range n.Status.Conditions {
+		if c.Type != corev1.NodeReady {
+			kept = append(kept, c)
+		}
+	}
+	switch how {
+	case "Missing":
+	case "Unknown":
+		kept = append(kept, corev1.NodeCondition{Type: corev1.NodeReady, Status: corev1.ConditionUnknown, LastTransitionTime: metav1.NewTime(now)})
+	default:
+		kept = append(kept, corev1.NodeCondition{Type: corev1.NodeReady, Status: corev1.ConditionFalse, LastTransitionTime: metav1.NewTime(now)})
+	}
+	n.Status.Conditions = kept
+}
 
 // ---------------------------------------------------------------------------------------------------------------------
 // recorder around a disruption method
@@ -771,9 +802,20 @@ func newDRunWith(s *dScenario, c *ev.Ctx, prepare func(*builtWorld)) *dRun {
 			nc.Status.LastPodEventTime = metav1.NewTime(now.Add(-time.Duration(x.LastPodEventAgoSec) * time.Second))
 			changed = true
 		}
+		switch x.ClaimTGP {
+		case "none":
+			nc.Spec.TerminationGracePeriod = nil
+			changed = true
+		case "30s":
+			nc.Spec.TerminationGracePeriod = &metav1.Duration{Duration: 30 * time.Second}
+			changed = true
+		}
 		if changed {
 			w.Apply(nc)
 			bn.NodeClaim = nc
+		}
+		if x.ReadyStatus != "" && bn.Node != nil {
+			bn.Node = w.UpdateNode(bn.Node.Name, func(n *corev1.Node) { setNotReady(n, x.ReadyStatus, now) })
 		}
 		if x.DoNotDisrupt != "" && bn.Node != nil {
 			bn.Node = w.UpdateNode(bn.Node.Name, func(n *corev1.Node) {
@@ -926,9 +968,7 @@ func (r *dRun) mutate(m dMut) {
 		}
 	case "nodeNotReady":
 		if bn := r.nodeAt(m.Target); bn != nil {
-			w.UpdateNode(bn.Node.Name, func(n *corev1.Node) {
-				n.Status.Conditions = []corev1.NodeCondition{{Type: corev1.NodeReady, Status: corev1.ConditionFalse, LastTransitionTime: metav1.NewTime(now)}}
-			})
+			w.UpdateNode(bn.Node.Name, func(n *corev1.Node) { setNotReady(n, m.Arg, now) })
 		}
 	case "podEvent":
 		if bn := r.nodeAt(m.Target); bn != nil && bn.NodeClaim != nil {
@@ -1112,6 +1152,20 @@ func (r *dRun) loseReplacement() {
 		break
 	}
 	w.Sync()
+}
+
+// loseReplacementNoSync removes a replacement from the API without delivering the deletion to the cluster state.
+func (r *dRun) loseReplacementNoSync() {
+	w := r.b.W
+	for _, nc := range w.ListNodeClaims() {
+		if r.b.nodeByStateName(nc.Name) != nil || nc.StatusConditions().Get(v1.ConditionTypeInitialized).IsTrue() {
+			continue
+		}
+		nc := nc
+		w.Remove(&nc)
+		r.c.Class("replacement_lost_unseen")
+		break
+	}
 }
 
 // finishDeleting completes the termination of every deleting NodeClaim: its pods leave, Node and NodeClaim disappear.
